@@ -336,8 +336,33 @@ struct Item {
     c: u32,
 }
 
+/// exact language of the target in THIS history: its derivative graph as a product case
+fn history_product(m: &mut ReManager, e: RegLan, target: &T) -> Option<Value> {
+    if target.cost() > crate::regex::COST_LIMIT {
+        return None;
+    }
+    let mut ends = vec![];
+    target.ends(&mut ends);
+    let g = crate::dump::dgraph(m, e, &ends, &[]);
+    if g.nodes.len() > 60 {
+        return None;
+    }
+    let mut mm = serde_json::Map::new();
+    mm.insert("op".into(), json!("dgraph"));
+    mm.insert("ast".into(), target.json());
+    g.json_fields(&mut mm);
+    mm.insert("roots".into(), json!([{"w": [], "s": g.node_of(e), "tag": "C07:language_exact_in_this_history"}]));
+    mm.insert("nullable".into(), json!(e.nullable));
+    Some(Value::Object(mm))
+}
+
 fn run_history(s: &mut Surface<'_>, prefix: &[Item], target: &T, rng: &mut Rng) -> Vec<Value> {
+    run_history_p(s, prefix, target, rng).0
+}
+
+fn run_history_p(s: &mut Surface<'_>, prefix: &[Item], target: &T, rng: &mut Rng) -> (Vec<Value>, Option<Value>) {
     let mut h = Hist::new();
+    let mut prod = None;
     let r = guarded(|| {
         for it in prefix {
             if it.what == "mk" {
@@ -358,11 +383,14 @@ fn run_history(s: &mut Surface<'_>, prefix: &[Item], target: &T, rng: &mut Rng) 
         h.ev.push(json!({"k":"eq","a":i1,"b":i2,"eq":e == e2,"ptr":std::ptr::eq(e, e2)}));
         h.queries(s, e2, target, rng);
         h.eq_samples(rng, 6);
+        if let Surface::Mgr(m) = s {
+            prod = history_product(m, e2, target);
+        }
     });
     if let Err(msg) = r {
         h.ev.push(json!({"k":"panic","msg":msg}));
     }
-    h.ev
+    (h.ev, prod)
 }
 
 fn read_lines(path: &str) -> Vec<Value> {
@@ -392,11 +420,16 @@ pub fn replay(a: &Args) {
         .collect();
     let mut rng = Rng::new(a.seed);
     // (1) a fresh ReManager per history
+    let mut pout = Out::create(&a.out, "manager_products.ndjson");
     for (prefix, target) in &parsed {
         let mut m = ReManager::new();
-        let ev = run_history(&mut Surface::Mgr(&mut m), prefix, target, &mut rng);
+        let (ev, prod) = run_history_p(&mut Surface::Mgr(&mut m), prefix, target, &mut rng);
         out.emit(json!({"op":"history","via":"manager-fresh","events":ev}));
+        if let Some(p) = prod {
+            pout.emit(p);
+        }
     }
+    let np = pout.finish();
     // (2) the thread-local manager: a fresh thread per chunk (the first history of each chunk sees a
     //     fresh manager, the following ones a manager that already served earlier histories)
     let seed = a.seed;
@@ -427,7 +460,7 @@ pub fn replay(a: &Args) {
         }
     }
     let n = out.finish();
-    println!("{{\"family\":\"manager-replay\",\"histories\":{},\"records\":{}}}", parsed.len(), n);
+    println!("{{\"family\":\"manager-replay\",\"histories\":{},\"records\":{},\"products\":{}}}", parsed.len(), n, np);
 }
 
 /// long random histories on one manager
